@@ -40,3 +40,6 @@ func (this *RaftTransport) VerifReceive(ctx context.Context, req *pb.RaftMessage
 // VerifRemoveGroup detaches a group from the transport (the harness abandons the goroutines of a "crashed"
 // incarnation and starts a new one over the surviving store).
 func (this *RaftTransport) VerifRemoveGroup(id [16]byte) { this.removeGroup(id) }
+
+// VerifTransport exposes the transport a group is attached to.
+func (this *RaftGroup) VerifTransport() *RaftTransport { return this.transport }
